@@ -457,14 +457,14 @@ func c18Exclude(argv []string, db *model.DB) string {
 			}
 		}
 	case "BITPOS":
-		// TEMP-EXCLUDE: D10 BITPOS ... BIT whose end falls inside a byte searches that whole byte, so it reports positions beyond
-		// end (bitMath.go findBitInByte ignores stopBit; only the start-and-end-in-one-byte path of findBit masks the tail)
 		o := db.Keys[argv[1]]
 		// TEMP-EXCLUDE: D11 BITPOS with a negative start on a key holding the empty string panics (index out of range in
 		// bitMath.go findBit: a negative startBit is clamped to 0 but then not compared with the end) and kills the process
 		if o != nil && o.T == model.TString && o.Str == "" && len(argv) >= 4 {
 			return "C18-D11-bitpos-empty-string-panic"
 		}
+		// TEMP-EXCLUDE: D10 BITPOS ... BIT whose end falls inside a byte searches that whole byte, so it reports positions beyond
+		// end (bitMath.go findBitInByte ignores stopBit; only the start-and-end-in-one-byte path of findBit masks the tail)
 		if o != nil && o.T == model.TString && len(argv) == 6 && upper(argv[5]) == "BIT" {
 			st, e1 := strconv.ParseInt(argv[3], 10, 64)
 			en, e2 := strconv.ParseInt(argv[4], 10, 64)
